@@ -91,6 +91,8 @@ def rewrite_history(rng):
     tail = [s for s in apistream.add_assignments(rng, body) if s['op'] == 'assign' and s not in body
             and s['_type'] not in ('calibration_measurement', 'parameter', 'computation', 'channel', 'frame')]
     q += tail[:3]
+    # an arbitrary Python object is written through str(): its repr holds a memory address, which differs between processes
+    q = [x for x in q if '"other"' not in json.dumps(x.get('raw'))]
     movable = [i for i, s in enumerate(created) if s['op'] != 'origin' and s.get('lf', 0) == 0]
     rng.shuffle(movable)
     for i in movable[:rng.choice([0, 1, 2, 3])]:
